@@ -281,7 +281,7 @@ def inline_self_methods(ci, expr, depth=0):
     return Tr().visit(_copy.deepcopy(expr))
 
 
-def splice_self_calls(ci, fnode, depth=0, module=None):
+def splice_self_calls(ci, fnode, depth=0, module=None, accept=None):
     """statement-level inlining of private helper methods of the same class, so that path / ownership rules over a method see
     through `split a long method`:
         self._step(a, b)          (expression statement; helper returns nothing)      ->  p1 = a; p2 = b; <body>
@@ -315,6 +315,8 @@ def splice_self_calls(ci, fnode, depth=0, module=None):
         if m is None or m.node is fnode or m.node.args.vararg or m.node.args.kwarg or any(isinstance(a, ast.Starred) for a in call.args):
             return None
         if any(isinstance(y, (ast.Yield, ast.YieldFrom)) for y in ast.walk(m.node)):
+            return None
+        if accept is not None and not accept(m.node):
             return None
         return m
 
@@ -353,7 +355,7 @@ def splice_self_calls(ci, fnode, depth=0, module=None):
                     if pre is not None:
                         body = [b for b in body_of(m) if not (isinstance(b, ast.Return) and b.value is None)]
                         tmp = ast.FunctionDef(name="_", args=m.node.args, body=body or [ast.Pass()], decorator_list=[], returns=None, type_comment=None)
-                        tmp = splice_self_calls(ci, tmp, depth + 1, module)
+                        tmp = splice_self_calls(ci, tmp, depth + 1, module, accept)
                         res.extend(splice(pre) + tmp.body)
                         done = True
             elif isinstance(s, ast.Assign) and len(s.targets) == 1 and isinstance(s.targets[0], ast.Name):
@@ -365,7 +367,7 @@ def splice_self_calls(ci, fnode, depth=0, module=None):
                         pre = bind(m, s.value)
                         if pre is not None:
                             tmp = ast.FunctionDef(name="_", args=m.node.args, body=body[:-1] or [ast.Pass()], decorator_list=[], returns=None, type_comment=None)
-                            tmp = splice_self_calls(ci, tmp, depth + 1, module)
+                            tmp = splice_self_calls(ci, tmp, depth + 1, module, accept)
                             res.extend(splice(pre) + tmp.body + [ast.Assign(targets=[s.targets[0]], value=body[-1].value)])
                             done = True
             elif isinstance(s, ast.Return) and s.value is not None:
@@ -377,7 +379,7 @@ def splice_self_calls(ci, fnode, depth=0, module=None):
                         pre = bind(m, s.value)
                         if pre is not None:
                             tmp = ast.FunctionDef(name="_", args=m.node.args, body=body[:-1] or [ast.Pass()], decorator_list=[], returns=None, type_comment=None)
-                            tmp = splice_self_calls(ci, tmp, depth + 1, module)
+                            tmp = splice_self_calls(ci, tmp, depth + 1, module, accept)
                             res.extend(splice(pre) + tmp.body + [ast.Return(value=body[-1].value)])
                             done = True
             if done:
